@@ -34,3 +34,4 @@ Lemma Rltb_spec x y : Bool.reflect (x < y)%R (Rltb x y).
 Proof. unfold Rltb; destruct (Rlt_dec x y); constructor; auto. Qed.
 Lemma Rleb_spec x y : Bool.reflect (x <= y)%R (Rleb x y).
 Proof. unfold Rleb; destruct (Rle_dec x y); constructor; auto. Qed.
+Canonical Structure RealA.
